@@ -594,6 +594,64 @@ pub fn run(ctx: &mut Ctx) {
         }
     }
 
+    // ---- witnesses of recorded findings in the scalar positions (open ones print KNOWN-FINDING, fixed ones must hold)
+    {
+        use serde_saphyr::{FlowMap, FlowSeq};
+        #[derive(Serialize, Deserialize, Debug, PartialEq, Clone)]
+        enum E {
+            New(String),
+            T(i32, i32),
+            St { x: i32 },
+        }
+        fn rt<U: Serialize + serde::de::DeserializeOwned + PartialEq + std::fmt::Debug>(u: &U) -> Result<(), String> {
+            let text = serde_saphyr::to_string(u).map_err(|e| format!("serialization failed: {e}"))?;
+            match serde_saphyr::from_str::<U>(&text) {
+                Ok(b) if b == *u => Ok(()),
+                Ok(b) => Err(format!("emitted {text:?}, read back {b:?}")),
+                Err(e) => Err(format!("emitted {text:?}, reading fails: {}", e.to_string().lines().next().unwrap_or(""))),
+            }
+        }
+        // F75 (open): enum variants with a payload inside flow collections
+        for e in [E::New("v".into()), E::T(1, 2), E::St { x: 1 }] {
+            ctx.direct_evaluations += 3;
+            let checks = [
+                rt(&FlowMap(BTreeMap::from([("k".to_string(), e.clone())]))),
+                rt(&FlowSeq(vec![e.clone(), e.clone()])),
+                rt(&FlowSeq(vec![BTreeMap::from([("k".to_string(), e.clone())])])),
+            ];
+            for (i, c) in checks.iter().enumerate() {
+                if let Err(m) = c {
+                    ctx.fail("F75:enum-payload-in-flow-collection", format!("{e:?} in flow position {i}: {m}"), json!({"kind": "flow_variant", "value": format!("{e:?}"), "position": i}));
+                }
+            }
+        }
+        // F76 (open): string keys longer than the parser's 1024-character limit for implicit keys
+        for n in [1023usize, 1024, 1025, 3000] {
+            ctx.direct_evaluations += 1;
+            if let Err(m) = rt(&BTreeMap::from([("k".repeat(n), 1u8)])) {
+                let m: String = m.chars().filter(|c| *c != 'k').collect();
+                ctx.fail(if n > 1024 { "F76:key-longer-than-1024" } else { "string-round-trip" }, format!("a key of {n} characters: {m}"), json!({"kind": "long_key", "length": n}));
+            }
+        }
+        // F77 (open): Option<String> keys None and Some("null") collide (key fingerprints ignore the scalar style)
+        ctx.direct_evaluations += 3;
+        if let Err(m) = rt(&BTreeMap::from([(None, 1u8), (Some("null".to_string()), 2)])) {
+            ctx.fail("F77:option-key-null-vs-quoted-null", format!("Option<String> keys None and Some(\"null\"): {m}"), json!({"kind": "option_keys"}));
+        }
+        if let Err(m) = rt(&BTreeMap::from([(None, 1u8), (Some(String::new()), 2), (Some("~".to_string()), 3)])) {
+            ctx.fail("string-round-trip", format!("Option<String> keys None, Some(\"\"), Some(\"~\"): {m}"), json!({"kind": "option_keys"}));
+        }
+        // F79 (fixed): Some(empty bytes)
+        #[derive(Serialize, Deserialize, Debug, PartialEq)]
+        struct B {
+            b: Option<Bytes>,
+            c: Option<Bytes>,
+        }
+        if let Err(m) = rt(&B { b: Some(Bytes(vec![])), c: None }) {
+            ctx.fail("bytes-round-trip", format!("Option<bytes> = Some(empty): {m}"), json!({"kind": "empty_bytes"}));
+        }
+    }
+
     // ---- S: integers
     let mut ints: Vec<i128> = vec![0, 1, -1, 7, 8, 9, 10, 63, 64, 100, 255, 256];
     for b in [7u32, 8, 15, 16, 31, 32, 63, 64, 126] {
